@@ -111,7 +111,8 @@ class C13(Prop):
             for ctx in UNCOMPILED_CONTEXTS:
                 for pre in ["", rng.choice(PREFIXES)]:
                     c = case(pre + ctx % frag, False, "invalid-in-uncompiled-position")
-                    c.tags.add("uncompiled-position")
+                    if ".%s" in ctx:
+                        c.tags.add("uncompiled-position")     # known finding D39; the callee of a call is checked since its partial repair
                     out.append(c)
         for frag in COMPILE_INVALID + ["(3 = 4)", "#", "1 +"]:
             for ctx in REPEATED_KEY_CONTEXTS:
